@@ -305,7 +305,7 @@ fn main() {
         "evaluations": evals.load(Ordering::Relaxed),
         "distinct_nontrivial": nontrivial,
         "programs": decls.len() * 3,
-        "rule": "declarations = base declaration + every single deviation (thorough: every pair of deviations) over 13 dimensions (method, path shape, versions syntax incl. const identifiers, tags, operation_id, content_type, request_body_max_bytes incl. const expressions, deprecated, unpublished, extractor list, return type, error type, doc shape) + every doc-comment shape of <=2 (thorough <=4) lines over {blank, word, dash-, two words} in /// and /** */ form + channel declarations; each declared as a free function, as a method of one API trait with a real impl, and in that trait's stub. Oracle: at 6 probe versions the real lookup_route routes exactly the declared method/path at exactly the declared versions with the declared operation id, body limit and content type; the document shows the declared operation id, tags, deprecated flag, absence when unpublished, and summary+description with the doc comment's non-whitespace characters; the three styles give byte-identical documents and identical lookups. distinct_nontrivial = declarations that deviate from the base in a checked attribute.",
+        "rule": "declarations = base declaration + every single deviation (thorough: every pair of deviations) over 13 dimensions (method, path shape, versions syntax incl. const identifiers, tags, operation_id, content_type, request_body_max_bytes incl. const expressions, deprecated, unpublished, extractor list, return type, error type, doc shape) + every doc-comment shape of <=2 (thorough <=3) lines over {blank, word, dash-, two words, *starred* text, * bullet} in /// and /** */ form + channel declarations; each declared as a free function, as a method of one API trait with a real impl, and in that trait's stub. Oracle: at 6 probe versions the real lookup_route routes exactly the declared method/path at exactly the declared versions with the declared operation id, body limit and content type; the document shows the declared operation id, tags, deprecated flag, absence when unpublished, and summary+description with the doc comment's non-whitespace characters; the three styles give byte-identical documents and identical lookups. distinct_nontrivial = declarations that deviate from the base in a checked attribute.",
         "declarations": decls.len(), "styles": styles.iter().map(|s| s.style).collect::<Vec<_>>(), "probe_versions": PROBES, "zoo": if want_thorough {"thorough"} else {"quick"},
         "exhaustive": true,
         "samples": samples.take(),
